@@ -18,6 +18,7 @@ RELS = ["byname", "prefix", "both", "absent", "wrongtype", "subclass", "falsy", 
 CTOR_RELS = ["byname", "prefix", "absent", "wrongtype", "comp_earlier", "comp_later", "private", "falsy", "callable", "subclass", "wrongtype_prefix", "wrongtype_both"]
 TYPES = ["Inj", "Other", "int", "str", "tuple", "float"]
 FALSY = {"int": 0, "str": "", "tuple": (), "float": 0.0, "bool": False}
+ODD_NAMES = ["log", "e", "og", "r", "logg", "x", "a__b", "l", "er", "ger", "gg", "very_long_attribute_name_" * 4 + "end", "logger_", "Logger", "g"]
 GENERICS = ["List[int]", "list[int]", "Tuple[int, int]", "Dict[str, int]"]
 
 
@@ -359,6 +360,9 @@ def decode(code):
         rel = RELS[rel_c]
         uid[0] += 1
         n = f"{tag}{k}_{j}"
+        if gen_c == 1 and rel in ("byname", "both", "prefix", "falsy", "subclass", "wrongtype"):
+            # short / odd but legal attribute names, some of them fragments of names the framework uses itself
+            n = ODD_NAMES[(type_c + j + (k if isinstance(k, int) else 3)) % len(ODD_NAMES)]
         a = {"n": n, "rel": rel, "ann": TYPES[type_c], "also_on_robot": also}
         if rel == "subclass":
             a["ann"] = "Inj"
